@@ -65,6 +65,41 @@ CHECKS = {
          "path (guard dominance, max(x,c)-c, successful-get => index < len, cast ranges, object invariant with checked "
          "premises, divisor = cycle duration or guarded by == 0); thorough tier compares debug and release MIR. Not decided: "
          "overflow to inf of products of extreme finite durations.", "panic-site enumeration with per-path discharge", "5/C20"),
+ "C08": ("other", "Write set of the generated update on every witness struct shape and the repository's own derive uses: only "
+         "animated fields of the target are stored, each store dominated by the Some arm of the same-named sub-timeline, "
+         "nothing before prepare_frame returned Some; the #[animate] filter selects exactly the marked fields; no data => "
+         "empty sub-timeline => None; empty timeline => None before the time scale is consulted; merged update has no other "
+         "effect. Almost entirely structural and decided as such over the witness family.",
+         "effects / write-set analysis of macro-generated MIR over a generated struct family", "5/C08"),
+ "C09": ("other", "No interior mutability reachable from any timeline type (type-graph search), no thread-locals / static mut, "
+         "update takes &self and never reads the target's animated fields, Clone is field-wise, override_start_value replaces "
+         "(does not merge) and start_with writes only override fields. Excluded as in the property: user Custom easings.",
+         "type-graph search + effects analysis", "5/C09"),
+ "C15": ("translation_validation", "For every sentence of a corpus covering every production of the macro grammar, the MIR of "
+         "the timeline! expansion and of the builder chain prescribed by the documented reading (implemented independently in "
+         "witness/gen.py) are normalised into configuration records and compared (1 ulp tolerance on unit conversion); the "
+         "parser's peek alternatives and suffix strings are read from its MIR and must all be known and exercised; unit table "
+         "constants; ill-formed sentences must be rejected with compiling twins. Not a proof over all sentences.",
+         "translation validation of macro output by MIR value-graph comparison + grammar coverage from parser MIR", "5/C15"),
+ "C16": ("translation_validation", "Same for animator!: initial state, initial values (Default + overrides, expression, omitted), "
+         "`default` keyframes, A | B arms, merged arms, unmentioned states, compared as StateAnimatorBuilder chain records; "
+         "animator parser alternatives must be known and exercised.",
+         "translation validation of macro output by MIR value-graph comparison", "5/C16"),
+ "C17": ("translation_validation", "Structural validation of the code derive(Animate) generates for a family of struct shapes "
+         "(1..6 fields, six numeric types + glam, attribute subsets, visibilities, remote proxies with reordered/extra fields): "
+         "keyframe data fields, setters, keyframe_from/values_from, build wiring (getter per field, default 0% value, easing), "
+         "update wiring and write set, start_with, accessors, KeyframeBuilder::build/easing, TimelineOrBuilder wrappers, "
+         "visibility and target type.", "structural validation of generated MIR against the generator's description", "5/C17"),
+ "C18": ("other", "Decision table of one iteration of animate::<T>: disabled rows have no effect; position only grows by "
+         "time.delta(), exactly when the final state of the frame is not Ended; state stores only move forward with the right "
+         "guards and without a frame of delay; every frame storing Ended evaluates the timeline on the target; exactly one "
+         "event per state-changing frame carrying (entity, final state); reset/set_timeline/plugin registration. Not decided: "
+         "value statements while Playing, bevy scheduling.", "path-sensitive decision table over MIR", "5/C18"),
+ "C19": ("other", "select_animation rows: same key => no effect; otherwise remember key, look up by current key, clone + "
+         "start_with(&component of the same entity) before installing, reset; key without timeline stops and touches no "
+         "component. chain_animations writes the key only for Ended + selector found + chain entry, to that entry; the event "
+         "consumed must identify the component type (known finding F6); system ordering. Not decided: bevy change detection "
+         "and cross-frame ordering.", "path-sensitive decision table over MIR", "5/C19"),
 }
 PENDING = {}
 
